@@ -1222,8 +1222,11 @@ class GaussianState(State):
         """Purity of the Gaussian state."""
 
         np = self._connector.np
+        hbar = self._config.hbar
 
-        return np.real(2**self.d / np.sqrt(np.linalg.det(self.xxpp_covariance_matrix)))
+        return np.real(
+            hbar**self.d / np.sqrt(np.linalg.det(self.xxpp_covariance_matrix))
+        )
 
     def purify(self) -> "GaussianState":
         """
